@@ -116,12 +116,6 @@ pub open spec fn constructible(f: FrameV) -> bool {
 }
 
 // ---- abstraction of the extracted (real) datatypes -------------------------------------
-pub open spec fn flat(v: Seq<CowBytes>) -> Seq<u8>
-    decreases v.len(),
-{
-    if v.len() == 0 { Seq::<u8>::empty() } else { flat(v.drop_last()) + v.last()@ }
-}
-
 pub open spec fn push_view(p: PushPayload) -> Seq<u8> {
     match p {
         PushPayload::Single(d) => d@,
